@@ -81,3 +81,95 @@ harness!(c17_float_views_total, unwind = 2, |s| {
     v_assert!(s, (c < 0) || secs >= 0.0, "non-negative elapsed time never reads negative");
     v_cover!(c < 0, "negative reachable");
 });
+
+// ---------------------------------------------------------------------------------------------------
+// Float-valued views are, by definition, the exact duration view rendered by Duration::to_unit; the
+// quality of that rendering (ulps, sign, monotonicity) is C18's subject. What is decided here is that no
+// view applies a wrong constant, unit or scale: each one equals the documented formula built from the
+// primitives that C01/C05/C18 decide (exact durations, Unit x f64 constants, to_unit), bit for bit.
+const MJD_1900: f64 = 15_020.0;
+const JD_MJD: f64 = 2_400_000.5;
+
+#[inline(always)]
+fn same(a: f64, b: f64) -> bool {
+    a.to_bits() == b.to_bits()
+}
+
+harness!(c17_float_views_definition, unwind = 2, |s| {
+    let d = span(s);
+    let u = any_unit(s);
+    let e = Epoch::from_duration(d, TimeScale::TAI);
+    let tai = e.to_tai_duration();
+    let tt = e.to_tt_duration();
+    let mjd_tai = tai + Unit::Day * MJD_1900;
+    let jde_tai = e.to_jde_tai_duration();
+    v_assert!(s, same(e.to_mjd_tai(u), mjd_tai.to_unit(u)), "to_mjd_tai(unit) = (TAI elapsed + 15020 d) in that unit");
+    v_assert!(s, same(e.to_mjd_tai_days(), mjd_tai.to_unit(Unit::Day)) && same(e.to_mjd_tai_seconds(), mjd_tai.to_unit(Unit::Second)), "MJD TAI days / seconds");
+    v_assert!(s, same(e.to_jde_tai(u), jde_tai.to_unit(u)), "to_jde_tai(unit) = JD(TAI) duration in that unit");
+    v_assert!(s, same(e.to_jde_tai_days(), jde_tai.to_unit(Unit::Day)) && same(e.to_jde_tai_seconds(), jde_tai.to_unit(Unit::Second)), "JD TAI days / seconds");
+    v_assert!(s, same(e.to_tai(u), tai.to_unit(u)) && same(e.to_tai_seconds(), tai.to_seconds()) && same(e.to_tai_days(), tai.to_unit(Unit::Day)), "TAI elapsed in a unit");
+    v_assert!(s, same(e.to_tt_seconds(), tt.to_seconds()) && same(e.to_tt_days(), tt.to_unit(Unit::Day)), "TT elapsed seconds / days");
+    v_assert!(s, same(e.to_jde_tt_days(), e.to_jde_tt_duration().to_unit(Unit::Day)) && same(e.to_mjd_tt_days(), e.to_mjd_tt_duration().to_unit(Unit::Day)), "JD / MJD TT days");
+    v_assert!(s, same(e.to_tt_centuries_j2k(), e.to_tt_since_j2k().to_unit(Unit::Century)), "TT centuries since J2000");
+    v_cover!(d.to_parts().0 < 0, "before 1900 reachable");
+});
+
+// UTC-labelled views on a UTC epoch (no leap-second lookup involved: the epoch already counts UTC)
+harness!(c17_float_views_utc_definition, unwind = 2, |s| {
+    let d = span(s);
+    let u = any_unit(s);
+    let e = Epoch::from_duration(d, TimeScale::UTC);
+    let utc = e.to_utc_duration();
+    v_assert!(s, utc.to_parts() == d.to_parts(), "UTC elapsed time of a UTC epoch is its own");
+    let mjd_utc = utc + Unit::Day * MJD_1900;
+    v_assert!(s, same(e.to_mjd_utc(u), mjd_utc.to_unit(u)), "to_mjd_utc(unit) = (UTC elapsed + 15020 d) in that unit");
+    v_assert!(s, same(e.to_mjd_utc_days(), mjd_utc.to_unit(Unit::Day)) && same(e.to_mjd_utc_seconds(), mjd_utc.to_unit(Unit::Second)), "MJD UTC days / seconds");
+    let jde_utc = e.to_jde_utc_duration();
+    v_assert!(s, same(e.to_jde_utc_days(), jde_utc.to_unit(Unit::Day)) && same(e.to_jde_utc_seconds(), jde_utc.to_seconds()), "JD UTC days / seconds");
+    v_assert!(s, same(e.to_utc(u), utc.to_unit(u)) && same(e.to_utc_seconds(), utc.to_unit(Unit::Second)) && same(e.to_utc_days(), utc.to_unit(Unit::Day)), "UTC elapsed in a unit");
+    let unix = e.verif_to_unix_duration();
+    v_assert!(s, same(e.to_unix(u), unix.to_unit(u)), "to_unix(unit) = UNIX duration in that unit");
+    v_assert!(s, same(e.to_unix_seconds(), unix.to_unit(Unit::Second)) && same(e.to_unix_milliseconds(), unix.to_unit(Unit::Millisecond)) && same(e.to_unix_days(), unix.to_unit(Unit::Day)), "UNIX seconds / ms / days");
+    v_cover!(d.to_parts().0 < 0, "before 1900 reachable");
+});
+
+// Constructors from a float JD / MJD / UNIX / elapsed value: exactly the documented formula, for every finite input
+harness!(c17_float_constructors_definition, unwind = 2, |s| {
+    let x = s.f64();
+    s.assume(x.is_finite());
+    let mjd = (x - MJD_1900) * Unit::Day;
+    let jde = (x - MJD_1900 - JD_MJD) * Unit::Day;
+    with_uniform(s, |s, ts| {
+        let a = Epoch::from_mjd_in_time_scale(x, ts);
+        v_assert!(s, a.time_scale == ts && a.duration.to_parts() == mjd.to_parts(), "from_mjd_in_time_scale = (x - 15020) days in that scale");
+        let b = Epoch::from_jde_in_time_scale(x, ts);
+        v_assert!(s, b.time_scale == ts && b.duration.to_parts() == jde.to_parts(), "from_jde_in_time_scale = (x - 15020 - 2400000.5) days in that scale");
+    });
+    let w = [
+        (Epoch::from_mjd_tai(x), TimeScale::TAI), (Epoch::from_mjd_utc(x), TimeScale::UTC), (Epoch::from_mjd_gpst(x), TimeScale::GPST),
+        (Epoch::from_mjd_qzsst(x), TimeScale::QZSST), (Epoch::from_mjd_gst(x), TimeScale::GST), (Epoch::from_mjd_bdt(x), TimeScale::BDT),
+    ];
+    for (e, ts) in w {
+        v_assert!(s, e.time_scale == ts && e.duration.to_parts() == mjd.to_parts(), "from_mjd_<scale> wrappers");
+    }
+    let j = [
+        (Epoch::from_jde_tai(x), TimeScale::TAI), (Epoch::from_jde_utc(x), TimeScale::UTC), (Epoch::from_jde_gpst(x), TimeScale::GPST),
+        (Epoch::from_jde_qzsst(x), TimeScale::QZSST), (Epoch::from_jde_gst(x), TimeScale::GST), (Epoch::from_jde_bdt(x), TimeScale::BDT),
+    ];
+    for (e, ts) in j {
+        v_assert!(s, e.time_scale == ts && e.duration.to_parts() == jde.to_parts(), "from_jde_<scale> wrappers");
+    }
+    let secs = x * Unit::Second;
+    let days = x * Unit::Day;
+    v_assert!(s, Epoch::from_tai_seconds(x).duration.to_parts() == secs.to_parts() && Epoch::from_tai_seconds(x).time_scale == TimeScale::TAI, "from_tai_seconds");
+    v_assert!(s, Epoch::from_tai_days(x).duration.to_parts() == days.to_parts() && Epoch::from_tai_days(x).time_scale == TimeScale::TAI, "from_tai_days");
+    v_assert!(s, Epoch::from_utc_seconds(x).duration.to_parts() == secs.to_parts() && Epoch::from_utc_seconds(x).time_scale == TimeScale::UTC, "from_utc_seconds");
+    v_assert!(s, Epoch::from_utc_days(x).duration.to_parts() == days.to_parts() && Epoch::from_utc_days(x).time_scale == TimeScale::UTC, "from_utc_days");
+    // UNIX: 1970-01-01 00:00:00 UTC is 25567 days after 1900-01-01 in the UTC count
+    let unix0 = Duration::from_parts(0, days_from_1900(1970, 1, 1) as u64 * NPD);
+    let us = Epoch::from_unix_seconds(x);
+    v_assert!(s, us.time_scale == TimeScale::UTC && us.duration.to_parts() == (unix0 + secs).to_parts(), "from_unix_seconds = 1970-01-01 UTC + x s");
+    let ums = Epoch::from_unix_milliseconds(x);
+    v_assert!(s, ums.time_scale == TimeScale::UTC && ums.duration.to_parts() == (unix0 + x * Unit::Millisecond).to_parts(), "from_unix_milliseconds = 1970-01-01 UTC + x ms");
+    v_cover!(x < 0.0 && x != x.trunc(), "negative non-integer input reachable");
+});
